@@ -139,6 +139,13 @@ class Gen:
             iv = self.intvar()
             if iv is None:
                 return None
+            if rng.random() < 0.25:
+                # x += (y := e): the right-hand side binds a name of its own
+                y = self.name()
+                if y != iv:
+                    e = self.expr()
+                    self.mark_int(y)
+                    return ["aug", iv, ["walrus", y, e]]
             return ["aug", iv, self.expr()]
         if kind == "ann":
             x = self.name()
